@@ -7,7 +7,37 @@ import (
 	"fmt"
 	"net"
 	"strconv"
+
+	"github.com/pion/stun/v3"
 )
+
+const (
+	xorAddressFamilyIPv4 = 0x01
+	xorAddressFamilyIPv6 = 0x02
+	xorAddressSizeIPv4   = 8
+	xorAddressSizeIPv6   = 20
+)
+
+// checkXORAddressSize rejects XOR-*-ADDRESS values whose length does not match
+// their address family (RFC 5389 Section 15.2): a truncated value would
+// otherwise be decoded with the missing address bytes read as zero.
+func checkXORAddressSize(m *stun.Message, t stun.AttrType) error {
+	v, err := m.Get(t)
+	if err != nil {
+		return err
+	}
+	if len(v) < 2 {
+		return nil // left to the decoder, which rejects it
+	}
+	switch v[1] {
+	case xorAddressFamilyIPv4:
+		return stun.CheckSize(t, len(v), xorAddressSizeIPv4)
+	case xorAddressFamilyIPv6:
+		return stun.CheckSize(t, len(v), xorAddressSizeIPv6)
+	default:
+		return nil // unknown family, rejected by the decoder
+	}
+}
 
 // Addr is ip:port.
 type Addr struct {
